@@ -106,6 +106,7 @@ type fdFront struct {
 	closed   chan struct{}
 	once     sync.Once
 	during   func(pl *fdPlan, n, slot int) // makes n changes on the active (set by the scenario)
+	snap     func(p *fdFront, w http.ResponseWriter, r *http.Request)
 
 	mu       sync.Mutex
 	plans    []*fdPlan
@@ -119,11 +120,16 @@ type fdFront struct {
 }
 
 func newFdFront(clock *int64, upstream string) (*fdFront, error) {
+	return newFdFrontSnap(clock, upstream, nil)
+}
+
+// newFdFrontSnap: snap, if not nil, handles the snapshot requests instead of the per-attempt plans (layer E).
+func newFdFrontSnap(clock *int64, upstream string, snap func(p *fdFront, w http.ResponseWriter, r *http.Request)) (*fdFront, error) {
 	ln, err := net.Listen("tcp", "127.0.0.1:0")
 	if err != nil {
 		return nil, err
 	}
-	p := &fdFront{clock: clock, upstream: upstream, ln: ln, closed: make(chan struct{})}
+	p := &fdFront{clock: clock, upstream: upstream, ln: ln, closed: make(chan struct{}), snap: snap}
 	d := &net.Dialer{Timeout: 10 * time.Second}
 	p.tr = &http.Transport{DisableKeepAlives: true, DialContext: d.DialContext}
 	p.cl = &http.Client{Transport: p.tr}
@@ -233,6 +239,10 @@ func (p *fdFront) note(a *fdAttempt, field *string, v string) {
 func (p *fdFront) ServeHTTP(w http.ResponseWriter, r *http.Request) {
 	switch r.URL.Path {
 	case "/ha/sessions":
+		if p.snap != nil {
+			p.snap(p, w, r)
+			return
+		}
 		p.serveSnap(w, r)
 	case "/ha/sessions/stream":
 		p.serveStream(w, r)
